@@ -184,6 +184,96 @@ def r3_same_inputs(cx):
     cx.check("both-arms", sorted(d[0] or "?" for d in descs) == ["Ping", "Pong"], site_of(hi), "the key is derived in the ping arm (responder) and in the pong arm (initiator)")
 
 
+def _only_fatal_errors(prog, body, op, sel, depth):
+    """True if every Err the operand can hold is CryptoInitFatal: follows `?` (Try::branch / from_residual),
+    map_err closures, select_algorithm's own errors, and all definitions of a multiply-defined local (the return
+    slot of a spliced helper)."""
+    if depth > 10:
+        return False
+    o = origin(body, op)
+    if o[0] == "call":
+        t = o[2]
+        if callee_is(t, "ops::Try::branch") or callee_is(t, "FromResidual>::from_residual", "from_residual"):
+            return _only_fatal_errors(prog, body, t["args"][0], sel, depth + 1)
+        if callee_is(t, "result::Result::map_err"):
+            cl = op_root(body, t["args"][1])
+            d = defuse(body).single_def(cl["l"]) if cl is not None else None
+            if d and d[0] == "stmt" and d[3]["rv"].get("agg") == "closure":
+                cb = prog.by_did.get(d[3]["rv"]["closure_did"])
+                if cb is None:
+                    return False
+                ags = [s for bi, si, s in cb.stmts() if s["k"] == "assign" and s["rv"]["k"] == "aggregate" and s["rv"].get("adt", "").endswith("error::Error")]
+                return bool(ags) and all(s["rv"]["variant"] == "CryptoInitFatal" for s in ags)
+            return False
+        if any(d == sel.did for _k, d in prog.cg.resolve(body, t)):
+            errs = [s for (b2, bi2, s) in aggregates(prog, "Error") if b2.did == sel.did]
+            return bool(errs) and all(s["rv"]["variant"] == "CryptoInitFatal" for s in errs)
+        return False
+    if o[0] == "rvalue":
+        rv = o[2]["rv"]
+        if rv["k"] == "aggregate" and rv.get("adt", "").endswith("result::Result"):
+            if rv.get("variant") == "Ok":
+                return True
+            o2 = origin(body, rv["ops"][0])
+            return o2[0] == "rvalue" and o2[2]["rv"].get("variant") == "CryptoInitFatal"
+        if rv["k"] == "aggregate" and rv.get("adt", "").endswith("error::Error"):
+            return rv.get("variant") == "CryptoInitFatal"
+        return False
+    if o[0] == "place":
+        pl = o[1]
+        l = pl["l"]
+        if 1 <= l <= body.arg_count:
+            return False
+        defs = defuse(body).defs.get(l, [])
+        if not defs:
+            return False
+        for d in defs:
+            if d[0] == "call":
+                t = d[2]
+                fake = {"k": "copy", "place": {"l": l}}
+                if callee_is(t, "ops::Try::branch") or callee_is(t, "FromResidual>::from_residual", "from_residual"):
+                    if not _only_fatal_errors(prog, body, t["args"][0], sel, depth + 1):
+                        return False
+                    continue
+                if any(dd == sel.did for _k, dd in prog.cg.resolve(body, t)):
+                    errs = [s for (b2, bi2, s) in aggregates(prog, "Error") if b2.did == sel.did]
+                    if not (errs and all(s["rv"]["variant"] == "CryptoInitFatal" for s in errs)):
+                        return False
+                    continue
+                if callee_is(t, "result::Result::map_err"):
+                    # re-use the single-definition path through a temporary operand
+                    cl = op_root(body, t["args"][1])
+                    dd = defuse(body).single_def(cl["l"]) if cl is not None else None
+                    okc = False
+                    if dd and dd[0] == "stmt" and dd[3]["rv"].get("agg") == "closure":
+                        cb = prog.by_did.get(dd[3]["rv"]["closure_did"])
+                        if cb is not None:
+                            ags = [s for bi, si, s in cb.stmts() if s["k"] == "assign" and s["rv"]["k"] == "aggregate" and s["rv"].get("adt", "").endswith("error::Error")]
+                            okc = bool(ags) and all(s["rv"]["variant"] == "CryptoInitFatal" for s in ags)
+                    if not okc:
+                        return False
+                    continue
+                return False
+            st = d[3]
+            rv = st["rv"]
+            if rv["k"] == "aggregate" and rv.get("adt", "").endswith("result::Result"):
+                if rv.get("variant") == "Ok":
+                    continue
+                o2 = origin(body, rv["ops"][0])
+                if not (o2[0] == "rvalue" and o2[2]["rv"].get("variant") == "CryptoInitFatal"):
+                    return False
+                continue
+            if rv["k"] == "use" and rv["op"].get("k") in ("copy", "move"):
+                if rv["op"]["place"]["l"] == l:
+                    return False
+                if not _only_fatal_errors(prog, body, rv["op"], sel, depth + 1):
+                    return False
+                continue
+            return False
+        return True
+    return False
+
+
 def _fatal_only_returns(prog, body, start_blocks, avoid_blocks):
     """Return sites reachable from start avoiding avoid_blocks that are not provably CryptoInitFatal errors."""
     reach = body.cfg.reachable_from(start_blocks, avoid_blocks=avoid_blocks)
@@ -198,34 +288,8 @@ def _fatal_only_returns(prog, body, start_blocks, avoid_blocks):
                 continue
             bad.append((rbi, kind))
         elif kind == "residual":
-            # `?` on a value: find the branch call feeding this residual
-            src = origin(body, info["args"][0])
-            ok = False
-            cur = info["args"][0]
-            for _ in range(6):
-                o = origin(body, cur)
-                if o[0] == "call":
-                    if callee_is(o[2], "ops::Try::branch"):
-                        cur = o[2]["args"][0]
-                        continue
-                    if callee_is(o[2], "result::Result::map_err"):
-                        cl = op_root(body, o[2]["args"][1])
-                        d = defuse(body).single_def(cl["l"]) if cl is not None else None
-                        if d and d[0] == "stmt" and d[3]["rv"].get("agg") == "closure":
-                            cb = prog.by_did.get(d[3]["rv"]["closure_did"])
-                            ags = [s for bi, si, s in cb.stmts() if s["k"] == "assign" and s["rv"]["k"] == "aggregate" and s["rv"].get("adt", "").endswith("error::Error")]
-                            ok = bool(ags) and all(s["rv"]["variant"] == "CryptoInitFatal" for s in ags)
-                        break
-                    if any(d == sel.did for _k, d in prog.cg.resolve(body, o[2])):
-                        errs = [s for (b2, bi2, s) in aggregates(prog, "Error") if b2.did == sel.did]
-                        ok = bool(errs) and all(s["rv"]["variant"] == "CryptoInitFatal" for s in errs)
-                        break
-                    break
-                if o[0] == "place":
-                    # (_x as Break).0 of a branch result
-                    cur = {"k": "copy", "place": {"l": o[1]["l"]}}
-                    continue
-                break
+            # `?` on a value: every error that value can hold must be CryptoInitFatal
+            ok = _only_fatal_errors(prog, body, info["args"][0], sel, 0)
             if not ok:
                 bad.append((rbi, kind))
         else:
@@ -355,41 +419,33 @@ def r6_dual_open(cx):
             if any(own) and not all(own) and (oc.ok_edges or oc.err_edges):
                 cmps.append((ci, c["name"], oc))
     cx.exact("role-switch-comparisons", len(cmps), 1, "order comparisons of the two salted ids used as a branch condition")
-    ping = prog.const_value("STAGE_PING")
+    NEG = {"gt": "le", "lt": "ge", "ge": "lt", "le": "gt"}
+    variant_edges = switch_edges_on_variant(prog, hi, "InitMsg", ["Ping", "Pong", "Peng"])
     for ci, name, oc in cmps:
-        cx.check("strict-order", name in ("gt", "lt"), site_of(hi, ci), "the role switch is decided by a strict order comparison (a non-strict one would make both ends yield on equal ids)")
-        # the yielding branch clears stage, last message and ephemeral key together
-        for edges, label in ((oc.ok_edges, "true"), (oc.err_edges, "false")):
-            fields = set()
+        # each side of the branch with the relation that holds on it (the false side holds the negation)
+        sides = []
+        for edges, other, rel in ((oc.ok_edges, oc.err_edges, name), (oc.err_edges, oc.ok_edges, NEG[name])):
+            stores = set()
             for bi, si, s in hi.stmts():
-                if s["k"] == "assign" and s["place"].get("p") and dominated_by_edges(hi, edges, bi):
+                if s["k"] == "assign" and s["place"].get("p") and dominated_by_edges(hi, edges, bi) and not dominated_by_edges(hi, other, bi):
                     r = root_place(hi, s["place"])
-                    if r["l"] == 1:
+                    if r["l"] == 1 and not dominated_by_edges(hi, variant_edges, bi):
+                        # stores after the match on the message (dominated by a variant edge) belong to the main flow
                         for f in ("next_stage", "last_message", "ecdh_private_key"):
                             if place_is_field(r, "InitState", f):
-                                # only count stores in the immediate branch (before the join with the main flow)
-                                fields.add(f)
-            if label == "true":
-                yielding = fields
-        stores_in_branch = set()
-        for bi, si, s in hi.stmts():
-            if s["k"] == "assign" and s["place"].get("p") and dominated_by_edges(hi, oc.ok_edges, bi) and not dominated_by_edges(hi, oc.err_edges, bi):
-                r = root_place(hi, s["place"])
-                if r["l"] == 1:
-                    # exclude stores after the match on msg (dominated by a variant edge)
-                    if not dominated_by_edges(hi, switch_edges_on_variant(prog, hi, "InitMsg", ["Ping", "Pong", "Peng"]), bi):
-                        for f in ("next_stage", "last_message", "ecdh_private_key"):
-                            if place_is_field(r, "InitState", f):
-                                stores_in_branch.add(f)
-        cx.check("yield-resets-all", stores_in_branch == {"next_stage", "last_message", "ecdh_private_key"}, site_of(hi, ci),
-                 "the yielding end resets stage, last message and ephemeral secret together (found %s)" % sorted(stores_in_branch))
-        # the other branch continues as initiator without replying
-        bad = []
-        for e in oc.err_edges:
-            tgt = hi.cfg.succ[e[1]][e[2]]
-            reach = hi.cfg.reachable_from_edge(e)
-        cont = [(b, bi, s) for (b, bi, s) in aggregates(prog, "InitResult", "Continue") if b.did == hi.did and dominated_by_edges(hi, oc.err_edges, bi)]
-        cx.check("winner-ignores-ping", len(cont) >= 1, site_of(hi, ci), "the end that keeps the initiator role ignores the crossing ping (returns Continue without state change)")
+                                stores.add(f)
+            cont = [(b, bi, s) for (b, bi, s) in aggregates(prog, "InitResult", "Continue") if b.did == hi.did and dominated_by_edges(hi, edges, bi)
+                    and not dominated_by_edges(hi, other, bi) and not dominated_by_edges(hi, variant_edges, bi)]
+            sides.append((rel, stores, cont))
+        yielding = [x for x in sides if x[1]]
+        keeping = [x for x in sides if not x[1]]
+        cx.check("strict-order", len(yielding) == 1 and yielding[0][0] in ("gt", "lt"), site_of(hi, ci),
+                 "the role switch (the branch that resets the handshake) is taken under a strict order relation of the two salted ids (a non-strict one would make both ends yield on equal ids): relation on the yielding side: %s" % [x[0] for x in yielding])
+        got = sorted(yielding[0][1]) if len(yielding) == 1 else []
+        cx.check("yield-resets-all", got == ["ecdh_private_key", "last_message", "next_stage"], site_of(hi, ci),
+                 "the yielding end resets stage, last message and ephemeral secret together (found %s)" % got)
+        cx.check("winner-ignores-ping", len(keeping) == 1 and len(keeping[0][2]) >= 1, site_of(hi, ci),
+                 "the end that keeps the initiator role ignores the crossing ping (returns Continue without state change)")
 
 
 RULES = [
